@@ -25,7 +25,7 @@ var c01Roots = []string{
 
 func init() {
 	register("C01", "other", "T11 Determinism effects + T10 MapOrder over the consensus call graph, provenance (canonical iteration order), T3/T4 (re-vote after every decision)",
-		"Decides four necessary conditions of order-independent agreement: (det) no function reachable from the consensus entry points inside the consensus packages (abft, election, vecengine, vecfc, pos, lachesis, adapters) draws randomness or time, starts goroutines or selects, or ranges over a map in a way that lets the iteration order reach a result — two instances fed the same events cannot diverge through these effects; the debug helpers that do range over maps are shown unreachable rather than trusted; (canon) the Atropos choice and the cheater list iterate the validator set through its canonical sorted view; (revote) after every decided, non-sealing frame the known roots are re-processed before the next root is handed to the election, Bootstrap ends with that re-processing, and the re-processing loop stops only when no further frame is decided or the epoch is sealed; between a call that reports 'sealed' (onFrameDecided, bootstrapElection) and the next live vote of the same root the 'not sealed' edge of that very result is taken; (slots) live voting and registration enumerate the same frame slots selfParentFrame+1..root.Frame() (bounds compared up to arithmetic rewriting), each vote / table record / cached-list entry is made in its own iteration for the slot (iteration's frame, root.Creator(), root.ID()), so the roots table and the cached per-frame lists that GetFrameRoots answers from hold the same slots. Agreement itself (same blocks for every DAG and delivery order) is a runtime fact and is not decided.",
+		"Decides necessary conditions of order-independent agreement: (det) no function reachable from the consensus entry points inside the consensus packages (abft, election, vecengine, vecfc, pos, lachesis, adapters) draws randomness or time, starts goroutines or selects, or ranges over a map in a way that lets the iteration order reach a result — two instances fed the same events cannot diverge through these effects; the debug helpers that do range over maps are shown unreachable rather than trusted; (canon) the Atropos choice and the cheater list iterate the validator set through its canonical sorted view; (revote) after every decided, non-sealing frame the known roots are re-processed before the next root is handed to the election, Bootstrap ends with that re-processing, and the re-processing loop stops only when no further frame is decided or the epoch is sealed; between a call that reports 'sealed' (onFrameDecided, bootstrapElection) and the next live vote of the same root the 'not sealed' edge of that very result is taken; (slots) live voting and registration enumerate the same frame slots selfParentFrame+1..root.Frame() (bounds compared up to arithmetic rewriting), each vote / table record / cached-list entry is made in its own iteration for the slot (iteration's frame, root.Creator(), root.ID()), so the roots table and the cached per-frame lists that GetFrameRoots answers from hold the same slots; (forkpairs, rootorder) the two arrival-ordered lists that consensus scans are scanned position-independently: both operands of the branch-overlap test in fork detection are current elements of loops over a creator's whole branch list (followed through helper parameters), and every loop of the election over a frame's root list runs over the whole list and evaluates the forkless-cause test of each element in its own iteration. Agreement itself (same blocks for every DAG and delivery order) is a runtime fact and is not decided.",
 		[]string{"storage (kvdb interfaces) is a deterministic ordered map: the traversal stops at kvdb and at application callbacks", "reachability follows static calls and interface calls resolved to module methods; function-valued fields are covered by listing their targets as entry points"},
 		runC01)
 }
@@ -63,8 +63,10 @@ func runC01(c *core.Ctx) {
 			}
 		}
 		c.Pass("no randomness/time/goroutines/select in reachable consensus code", "T11 Determinism effects", "scanned the reachable functions and their literals")
-		c.ExpectAtLeast("reachable consensus functions (incl. literals)", nF, 90)
-		c.ExpectAtLeast("map ranges in reachable consensus code", nR, 4)
+		// vacuity guards only (not today's counts): the traversal went well beyond the entry points, and
+		// the map-range recogniser sees the ranges that consensus code has
+		c.ExpectAtLeast("reachable consensus functions (incl. literals)", nF, 2*len(roots))
+		c.ExpectAtLeast("map ranges in reachable consensus code", nR, 1)
 		c.Extra["c01_reachable_functions"] = nF
 		// debug helpers with order-sensitive ranges must be unreachable
 		nDbg := 0
@@ -196,12 +198,16 @@ func runC01(c *core.Ctx) {
 		c.Need(len(decided) >= 1 && len(again) >= 1, "handleElection casts the live vote (ProcessRoot) and applies a decision (onFrameDecided)")
 		ok := len(boots) > 0
 		wit := ""
+		// The obligation concerns decisions that do not seal the epoch (a sealing one must end the voting
+		// of the root altogether, decided below): the paths asked for are those on which the 'sealed'
+		// result of that very call is not known to be true, so `if !sealed { replay }; if sealed { leave }`
+		// is read like `if sealed { leave }; replay`.
 		for _, d := range decided {
-			if found, _, w := (c01DeepQuery{Via: isReplay, Tgt: isVote, Track: -1}).from(d); found {
+			if found, _, w := (c01DeepQuery{Via: isReplay, Tgt: isVote, Track: 0, Neg: true}).from(d); found {
 				ok, wit = false, w
 			}
 		}
-		c.Check(ok, "known roots are re-processed after a decision before the next root votes", "T3 PostDominates (loop)", decided[0].Eff.Pos(), "every path from onFrameDecided back to ProcessRoot passes bootstrapElection()", "after a frame is decided the election can continue with the next root without re-processing the known roots of the new frame (instances that received events in another order decide differently): "+wit)
+		c.Check(ok, "known roots are re-processed after a decision before the next root votes", "T3 PostDominates (loop)", decided[0].Eff.Pos(), "every path from a non-sealing onFrameDecided back to ProcessRoot passes bootstrapElection()", "after a frame is decided the election can continue with the next root without re-processing the known roots of the new frame (instances that received events in another order decide differently): "+wit)
 		// A decision that seals the epoch resets the election to the new epoch's validators and first
 		// frame. The remaining frame slots of the current root belong to the old epoch: if one of them is
 		// still voted, the new election is fed a root of another epoch. Whether that happens depends on
@@ -300,4 +306,6 @@ func runC01(c *core.Ctx) {
 		}
 		c.Check(okA, "every decision found while re-processing is applied", "T3", be.Pos(), "each loop iteration with decided != nil calls onFrameDecided before the next processKnownRoots", "a decision found during re-processing can be dropped")
 	})
+
+	c01ArrivalOrder(c)
 }
